@@ -34,8 +34,13 @@ type PubSession struct {
 	disposeOnce sync.Once
 	udpConn     *nazanet.UdpConnection
 	listener    net.Listener
-	tcpConn     net.Conn
 	sessionStat base.BasicSessionStat
+
+	// tcp mode: the connection that is being served.  The accept loop sets it, Dispose (another goroutine) closes
+	// it; tcpDisposed tells the accept loop that a connection it has just accepted came too late.
+	tcpMutex    sync.Mutex
+	tcpConn     net.Conn
+	tcpDisposed bool
 }
 
 func NewPubSession() *PubSession {
@@ -206,16 +211,27 @@ func (session *PubSession) runLoopTcp() error {
 			return err
 		}
 
-		if session.tcpConn != nil {
+		session.tcpMutex.Lock()
+		if session.tcpDisposed {
+			// accepted while (or just before) the session was disposed: Dispose has not seen this connection, so
+			// nobody else would ever close it - and its reader would go on feeding whoever owns the stream by then
+			session.tcpMutex.Unlock()
+			_ = conn.Close()
+			return net.ErrClosed // (what Accept returns when the listener was closed a moment earlier)
+		}
+		prev := session.tcpConn
+		session.tcpConn = conn
+		session.tcpMutex.Unlock()
+
+		if prev != nil {
 			nazalog.Warnf("[%s] tcp conn already exist, close the prev. err=%+v", session.UniqueKey(), err)
-			session.tcpConn.Close()
+			prev.Close()
 			// the unpacker is not safe for concurrent use: the reader of the previous connection may be in
 			// the middle of a packet, it has to be through with it before the next reader feeds the unpacker
 			<-readerDone
 			// TODO(chef): [fix] reset unpack 202209
 		}
 
-		session.tcpConn = conn
 		done := make(chan struct{})
 		readerDone = done
 
@@ -262,8 +278,12 @@ func (session *PubSession) dispose(err error) error {
 			}
 			// 关闭listener，RunLoop（Accept）才会返回；已经建立的连接也一并关闭
 			retErr = session.listener.Close()
-			if session.tcpConn != nil {
-				_ = session.tcpConn.Close()
+			session.tcpMutex.Lock()
+			session.tcpDisposed = true
+			conn := session.tcpConn
+			session.tcpMutex.Unlock()
+			if conn != nil {
+				_ = conn.Close()
 			}
 		} else {
 			if session.udpConn == nil {
